@@ -87,6 +87,8 @@ class ChainHist(Engine):
             elif r < 0.87:
                 a = {'op': 'parse_b58', 'version': rng.choice(['p2pkh', 'p2sh', 'wif', rng.randrange(256)]), 'len': rng.choice([0, 1, 19, 21, 20, 32, 33, 24])
                      , 'payload': gen.rhex(rng, 40)}
+            elif r < 0.88:
+                a = {'op': 'zero_run', 'kind': rng.choice(['p2pkh', 'p2sh']), 'payload': gen.rhex(rng, 20), 'len': rng.choice([1, 2, 4, 7, 8, 8, 9, 15, 16]), 'offset': rng.randrange(1 << 16)}
             elif r < 0.89:
                 a = {'op': 'single_case', 'kind': rng.choice(['p2pkh', 'p2sh']), 'case': rng.choice(['lower', 'upper']), 'seed': rng.randrange(1 << 30)}
             elif r < 0.94:
@@ -301,7 +303,43 @@ class ChainHist(Engine):
         if op == 'single_case':
             self._single_case(a)
             return
+        if op == 'zero_run':
+            self._zero_run(a)
+            return
         raise ValueError(op)
+
+    def _zero_run(self, a):
+        """A valid base58 address whose TEXT holds a run of the zero digit '1' somewhere in the middle (1..16 of them,
+        at any offset): the digits are chosen first, the key hash is what they decode to, the check bytes are
+        recomputed (which only touches the tail).  One hash in 58^k has such a text.  Then the same text with the run
+        stretched by eight more '1's - not an address of any chain."""
+        ctx = self.ctx
+        kind = a['kind']
+        v = RC.TABLE[self.chain][kind]
+        t0 = RC.address_text(self.chain, kind, bytes.fromhex(a['payload'])[:20])
+        k = a['len']
+        if len(t0) < k + 12:
+            ctx.log(0, 0, 'zero_run', '', 'none')
+            return
+        o = 2 + a['offset'] % (len(t0) - k - 9)
+        digits = t0[:o] + '1' * k + t0[o + k:]
+        try:
+            raw = RB58.decode(digits)
+        except Exception:
+            raw = b''
+        if len(raw) != 25 or raw[0] != v:
+            ctx.probe('zero-run-not-constructible')
+            ctx.log(0, 0, 'zero_run', '', 'none')
+            return
+        h = raw[1:21]
+        text = RC.address_text(self.chain, kind, h)
+        run = '1' * k in text[1:]
+        ctx.fault('zero-digit-run-inside-address-text' if run else 'zero-digit-run-lost-to-carry')
+        self._parse(text, 'zero-run')
+        self.pool.append((text, self.chain, kind, h.hex()))
+        for extra in (8, 16, 1):
+            self._parse(text[:o] + '1' * extra + text[o:], 'zero-run-stretched')
+        ctx.log(0, 0, 'zero_run', '', '%s/%d@%d' % (kind, k, o))
 
     def _single_case(self, a):
         """A base58 address whose text happens to be written in one case only (digits plus lower-case, or
